@@ -157,6 +157,7 @@ package keeper
 // If the tunnel can pay and production fails at any step, nothing of the attempt persists: the module
 // store, the bank state and every other module reached by the route are exactly as before.
 //@ func (k Keeper) ProduceActiveTunnelPacket
+//@ counts tunnelID
 //@ modifies Store_tunnel, Bank, Other, RouteSent
 //@ requires wfTunnel(Store_tunnel, tunnelID) && wfLP(Store_tunnel, tunnelID)
 //@ ensures err != nil ==> Bank == old(Bank) && Other == old(Other) && Store_tunnel == old(Store_tunnel)
@@ -168,12 +169,19 @@ package keeper
 // (the attempt leaves no trace, see above), so the end-blocker itself never fails.
 //@ func (k Keeper) GetActiveTunnelIDs
 //@ loop 0: invariant 0 <= itpos(iterator) && itpos(iterator) <= itlen(iterator)
+// C17 "processed as active exactly when flagged active": EVERY id of the active index is handed to
+// ProduceActiveTunnelPacket in this end-block, whether or not an earlier tunnel failed (call-history ghost: how often
+// the per-tunnel step was started for which id)
+//@ ghost Count_ProduceActiveTunnelPacket map[uint64]int
 //@ func (k Keeper) ProduceActiveTunnelPackets
-//@ modifies Store_tunnel, Bank, Other, RouteSent
+//@ modifies Store_tunnel, Bank, Other, RouteSent, Count_ProduceActiveTunnelPacket
 //@ requires forall t Int :: wfTunnel(Store_tunnel, t) && wfLP(Store_tunnel, t)
 //@ ensures err == nil
 //@ ensures forall t Int :: wfTunnel(Store_tunnel, t) && wfLP(Store_tunnel, t)
 //@ loop 0: invariant forall t Int :: wfTunnel(Store_tunnel, t) && wfLP(Store_tunnel, t)
+//@ loop 0: invariant forall j :: 0 <= j && j < #i ==> Count_ProduceActiveTunnelPacket[ids[j]] > old(Count_ProduceActiveTunnelPacket)[ids[j]]
+//@ loop 0: invariant forall t Int :: Count_ProduceActiveTunnelPacket[t] >= old(Count_ProduceActiveTunnelPacket)[t]
+//@ assert at return: forall j :: 0 <= j && j < len(ids) ==> Count_ProduceActiveTunnelPacket[ids[j]] > old(Count_ProduceActiveTunnelPacket)[ids[j]]
 
 // ---- C17: deposits -----------------------------------------------------------------------------------
 //@ spec depHas(s Store, t Int, a Addr) Bool = has(s, types.DepositStoreKey(t, a))
@@ -269,6 +277,12 @@ package keeper
 //@ may_panic calls
 //@ modifies Store_tunnel, Bank, Other
 //@ assert at end: ext("Coins.Equal", balance, totalBalance)
+// C08 / C17 "processed as active exactly when flagged active", the other direction: the import starts from an empty
+// active index and puts into it ONLY tunnels that are flagged active
+//@ requires forall t Int :: !has(Store_tunnel, types.ActiveTunnelIDStoreKey(t))
+//@ ensures forall t Int :: has(Store_tunnel, types.ActiveTunnelIDStoreKey(t)) ==> (exists j :: 0 <= j && j < len(data.Tunnels) && data.Tunnels[j].ID == t && data.Tunnels[j].IsActive)
+//@ loop 0: invariant forall t Int :: has(Store_tunnel, types.ActiveTunnelIDStoreKey(t)) ==> (exists j :: 0 <= j && j < #i && data.Tunnels[j].ID == t && data.Tunnels[j].IsActive)
+//@ loop 1: invariant forall t Int :: has(Store_tunnel, types.ActiveTunnelIDStoreKey(t)) ==> (exists j :: 0 <= j && j < len(data.Tunnels) && data.Tunnels[j].ID == t && data.Tunnels[j].IsActive)
 //@ ensures forall j :: 0 <= j && j < len(data.Tunnels) ==> has(Store_tunnel, types.TunnelStoreKey(data.Tunnels[j].ID))
 //@ ensures forall j :: 0 <= j && j < len(data.Tunnels) ==> (data.Tunnels[j].IsActive ==> has(Store_tunnel, types.ActiveTunnelIDStoreKey(data.Tunnels[j].ID)))
 //@ loop 0: invariant forall j :: 0 <= j && j < #i ==> has(Store_tunnel, types.TunnelStoreKey(data.Tunnels[j].ID))
